@@ -61,6 +61,11 @@ type Case struct {
 
 var colNames = []string{"abc", "abcd", "xyz", "abc1"}
 
+// dotUser: "." and ".." are not names of a user's own directory (they name the directory of all users and
+// its parent). A server may refuse such ids (400 on every request, they own nothing: found out by a first
+// listing request) or serve them; served, they are tenants like any other.
+func dotUser(id string) bool { return id == "." || id == ".." }
+
 const npool = 6
 
 func poolId(user, i int) string {
@@ -76,6 +81,17 @@ func genUsers(t *rapid.T) []string {
 	if rapid.IntRange(0, 3).Draw(t, "punct") == 0 {
 		// prefer the punctuation family
 		cands = cands[len(cands)-13:]
+	}
+	// ids cut at a separator some header or list syntax uses, and ids that are path elements of their own
+	cands = append(cands, base+",eu", base+",", base+";q=1", base+"=1", base+"&x", ".", "..", "...", base+".", "."+base)
+	if rapid.IntRange(0, 7).Draw(t, "dotFamily") == 0 {
+		// an id that is a path element of its own next to a user who is named like a collection: what the
+		// first addresses as <id>/<collection> is the second's own directory
+		users := []string{rapid.SampledFrom([]string{".", ".", ".."}).Draw(t, "dotId"), rapid.SampledFrom(colNames).Draw(t, "colNamedUser")}
+		if rapid.Bool().Draw(t, "dotThird") {
+			users = append(users, base)
+		}
+		return users
 	}
 	n := rapid.IntRange(2, 3).Draw(t, "nusers")
 	perm := rapid.Permutation(cands).Draw(t, "users")
@@ -155,9 +171,20 @@ type userModel struct {
 const planName = "P"
 
 type world struct {
-	h     http.Handler
-	c     Case
-	users []*userModel
+	h       http.Handler
+	c       Case
+	users   []*userModel
+	refused map[string]bool // user ids the server refuses altogether
+}
+
+// probeRefused finds out which of the dot ids the server refuses.
+func (w *world) probeRefused() {
+	w.refused = map[string]bool{}
+	for u, id := range w.c.Users {
+		if dotUser(id) && drive.Call(w.h, "GET", "/v2/collections", w.headers(u), nil).Status == 400 {
+			w.refused[id] = true
+		}
+	}
 }
 
 func v2Schema() map[string]any {
@@ -208,6 +235,9 @@ func (w *world) apply(op Op) int {
 func (w *world) expect(op Op) (wantStatus []int) {
 	um := w.users[op.User]
 	col := um.cols[op.Col]
+	if w.refused[w.c.Users[op.User]] {
+		return []int{400}
+	}
 	if op.Traverse > 0 {
 		// refused (or redirected to a cleaned path by the router), never served
 		return []int{301, 307, 308, 400, 404, 405}
@@ -281,6 +311,12 @@ func (w *world) observe(u int) error {
 	hd := w.headers(u)
 	name := w.c.Users[u]
 	r := drive.Call(w.h, "GET", "/v2/collections", hd, nil)
+	if w.refused[name] {
+		if r.Status != 400 {
+			return fmt.Errorf("user %q: list collections returned %d %s, such an id is refused", name, r.Status, r.Body)
+		}
+		return nil
+	}
 	if r.Status != 200 {
 		return fmt.Errorf("user %q: list collections returned %d %s", name, r.Status, r.Body)
 	}
@@ -384,6 +420,10 @@ func execCase(c Case) (res vt.Result) {
 	for range c.Users {
 		w.users = append(w.users, &userModel{cols: map[string]*colModel{}})
 	}
+	w.probeRefused()
+	if len(w.refused) > 0 {
+		rec.Count("cases_with_a_refused_user_id", 1)
+	}
 	sameNames, quotaHit := false, false
 	for i, op := range c.Ops {
 		fail := func(f string, a ...any) vt.Result {
@@ -416,6 +456,16 @@ func execCase(c Case) (res vt.Result) {
 		for u := range c.Users {
 			if err := w.observe(u); err != nil {
 				return fail("afterwards: %v", err)
+			}
+		}
+		if op.Kind == "deleteCol" || (op.With != nil && op.With.Kind == "deleteCol") || i == len(c.Ops)-1 {
+			// a loaded shard keeps answering from its open file even when the file has been removed from
+			// under it: what is really left on disk shows once the shards are loaded afresh
+			node.VerifShardManager().VerifUnloadAll()
+			for u := range c.Users {
+				if err := w.observe(u); err != nil {
+					return fail("afterwards, with every shard loaded afresh from disk: %v", err)
+				}
 			}
 		}
 		for u := range c.Users {
